@@ -25,11 +25,11 @@ import (
 // only by what decodes into the Go types.
 
 type C15Case struct {
-	Set       *asv1.StatefulSet             `json:"set"`
-	Defaulted bool                          `json:"defaulted"`
-	Pods      []*corev1.Pod                 `json:"pods"`
-	Revs      []*appsv1.ControllerRevision  `json:"revs"`
-	Steps     []int                         `json:"steps"` // 0 reconcile, 1 kubelet-all, 2 reconcile with permuted cache, 3 refresh
+	Set       *asv1.StatefulSet            `json:"set"`
+	Defaulted bool                         `json:"defaulted"`
+	Pods      []*corev1.Pod                `json:"pods"`
+	Revs      []*appsv1.ControllerRevision `json:"revs"`
+	Steps     []int                        `json:"steps"` // 0 reconcile, 1 kubelet-all, 2 reconcile with permuted cache, 3 refresh
 }
 
 func (c C15Case) Summary() interface{} {
